@@ -185,9 +185,7 @@ theorem frameGood_build_replay (hg : FrameGood s.sender s.target row) (ha : IsAp
   · rw [replayMsg_mtype]; exact isLatin1_of_get? hg.lat hg.ty
   · unfold KindOK
     rw [buildFrame_mtype, replayMsg_mtype, if_neg aA, if_neg a2, if_neg a4, if_neg a5]
-    refine ⟨a0, a1, Or.inr ?_⟩
-    rw [get?_build_other s stamp _ k tPossDupFlag (by refine ⟨?_, ?_, ?_, ?_, ?_, ?_, ?_, ?_⟩ <;> decide)]
-    exact get?_replayMsg_43 row
+    exact ⟨a0, a1⟩
 
 theorem absFrame_build_replay (ha : IsAppRow row) :
     absFrame (buildFrame s stamp (replayMsg row) k) = ⟨k, .app (payloadOf row) true⟩ := by
